@@ -225,7 +225,14 @@ def main():
         f = tie_fails(lean, lean_path, tmp, baseline)
         print(('ok   ' if f is None else 'FAIL ') + 'TieEnv.lean against the unchanged sources -- ' + ('checks' if f is None else str(f)))
         bad += f is not None
-    print(f"{len(M) + 1 - bad}/{len(M) + 1} as expected")
+        # every item made unreadable at once: every theorem of the four modules must fall back to the model's own values
+        # (an item that cannot be read is a NOTE, never a failed proof)
+        p = subprocess.run([sys.executable, os.path.join(HERE, 'translate_env.py'), '--repo', base_repo, '--out', os.path.join(tmp, 'none.lean')],
+                           capture_output=True, text=True, env=dict(os.environ, TRANSLATE_ENV_UNTIE='all'))
+        f2 = tie_fails(lean, lean_path, tmp, open(os.path.join(tmp, 'none.lean')).read()) if 'tied 0 items' in p.stdout else 'the translator did not untie everything: ' + p.stdout[-200:]
+        print(('ok   ' if f2 is None else 'FAIL ') + 'every item untied at once -- ' + ('all four modules check' if f2 is None else 'fails at ' + str(f2)))
+        bad += f2 is not None
+    print(f"{len(M) + 2 - bad}/{len(M) + 2} as expected")
     return 1 if bad else 0
 
 if __name__ == '__main__':
